@@ -22,6 +22,32 @@ PROPS = {
         "trusted_base": SRV_TB,
         "assumptions": ["single client connection per history (C07/C18 cover several)", "uptime below 2^40 s (ttl_limit_ms)"],
     },
+    "C17": {
+        "n": {"quick": 60, "thorough": 1500}, "diff_is_failure": True, "trivial_outs": {"i1", ""},
+        "rule": "server started with requirepass; (a) every command name found in server.rs (read from /repo at run time) sent with 0-3 arguments and varied letter case on a fresh unauthenticated connection, followed by GET and PING on the same connection and a dataset check from an authenticated control connection; (b) random sequences on two connections of wrong passwords (all prefixes, extensions, case flips, binary), correct AUTH, arity/format errors, data commands, MULTI blocks; one evaluation = one reply compared with the model; distinct = distinct (command, reply) pairs",
+        "explanation": "theorems: gate non-interference, exact password, per-connection, generated-table obligations; tie: differential TCP runs",
+        "trusted_base": SRV_TB + ["tools/gen_tables.py: extraction of the gate arms, of names tested before the gate and of the pre-gate special cases from server.rs"],
+        "assumptions": ["commands that the model does not implement (INFO, CONFIG, CLIENT, ...) are only sent before authentication, where the gate answers uniformly"],
+    },
+    "C18": {
+        "n": {"quick": 120, "thorough": 2500}, "diff_is_failure": True, "trivial_outs": {"i1", ""},
+        "rule": "1-3 connections selecting among valid and invalid database indices and running the string/key catalogue directly and inside MULTI/EXEC, FLUSHDB/FLUSHALL, followed by a dump (KEYS *, GET, PTTL of the key pool) of databases 0,1,2,7,15 from a fresh connection; one evaluation = one reply compared with the model",
+        "explanation": "theorems: frame property of direct and queued execution, SELECT; tie: differential multi-connection histories",
+        "trusted_base": SRV_TB, "assumptions": ["script and blocking-pop paths are covered under C12/C13"],
+    },
+    "C07": {
+        "n": {"quick": 150, "thorough": 3000}, "diff_is_failure": True, "trivial_outs": {"i1", ""},
+        "rule": "2-4 connections interleaving MULTI / queued string-family commands (valid, failing at run time, unknown) / EXEC / DISCARD / WATCH / UNWATCH / SELECT / QUIT / disconnects in a deterministic total order, followed by a dump from a fresh connection; one evaluation = one reply (EXEC arrays element-wise) compared with the model",
+        "explanation": "theorems: queue inert, EXEC in order with one slot each, same as direct, state cleared; tie: differential interleaved histories",
+        "trusted_base": SRV_TB, "assumptions": ["single command thread in the implementation (replication client thread absent: master role only)"],
+    },
+    "C08": {
+        "n": {"quick": 80, "thorough": 2000}, "diff_is_failure": True, "trivial_outs": {"i1", ""},
+        "rule": "catalogue: 38 commands (every write of the string/key family plus reads and failing variants) x 4 initial states of the watched key x {other connection on the watched key, same connection, other connection on other keys only} -> WATCH, command, MULTI, SET probe, EXEC, observe nil vs array and the probe; plus random 3-connection histories with WATCH/UNWATCH/MULTI/EXEC/DISCARD/SELECT and writers; one evaluation = one reply compared with the model",
+        "explanation": "theorems: tracker soundness/completeness, EXEC abort rule, table obligations over the engine census; tie: exhaustive catalogue + random histories",
+        "trusted_base": SRV_TB + ["tools/gen_tables.py: per-function census of mark_modified call sites in engine.rs"],
+        "assumptions": ["list/set/hash/zset/stream writers are added to the catalogue as their families are merged"],
+    },
     "C20": {
         "n": {"quick": 400, "thorough": 6000},
         "judge": True,
@@ -32,3 +58,10 @@ PROPS = {
         "assumptions": ["RespParser is driven as the server drives it: feed, then parse until None or Err"],
     },
 }
+
+
+def gen_tables():
+    import subprocess, os, sys
+    here = os.path.dirname(os.path.abspath(__file__))
+    p = subprocess.run([sys.executable, os.path.join(here, "gen_tables.py")], stdout=subprocess.PIPE, stderr=subprocess.STDOUT, text=True)
+    return p.returncode == 0, p.stdout[-500:]
